@@ -10,7 +10,10 @@ mismatches with the log are counted (`unjudged_*`), never judged. Once a gate-ru
 run, the result checks derived from it are skipped for that run, so one defect keeps one mechanism key.
 Mechanism keys carry the input class (`:halt-on` / `:halt-off`, or the state of the offending stage).
 The `MAPKCascade` preset is monitored by wrapping its own lambdas
-with the same loggers.
+with the same loggers (the preset's stage objects are taken from a mirror of the public add_stage / insert_stage /
+remove_stage calls, or found structurally among the instance's attributes, and cross-checked against the public
+`get_statistics()['stage_names']`). No private attribute, method or lock of the cascade classes is named anywhere in this
+check: locks are wrapped generically (`rv.locks.wrap_all_locks`), the scheduler instruments the class as a whole.
 
 Case layout (a case = a block of pipelines, pure function of (seed, n)):
   sweep blocks : mixed-radix enumeration of 48 stage behaviours ^ k stages x halt in {T,F}, k = 1..K
@@ -639,10 +642,79 @@ def case_random(ctx, n, tp):
 
 
 # ---------------------------------------------------------------------------- MAPK preset
-def wrap_stages(casc):
+_RECORDERS = {}
+
+
+def recording(cls):
+    """Subclass of a cascade class that mirrors, through the PUBLIC pipeline-building methods only (add_stage /
+    insert_stage / remove_stage, as documented: append / list.insert index / first stage of that name), the stage objects
+    handed to the instance. The mirror is kept outside the instance (`c19_mirror` is the only attribute added)."""
+    sub = _RECORDERS.get(cls)
+    if sub is None:
+        class Recording(cls):
+            def _c19_list(self):
+                m = self.__dict__.get("c19_mirror")
+                if m is None:
+                    m = self.__dict__["c19_mirror"] = []
+                return m
+
+            def add_stage(self, stage):
+                r = super().add_stage(stage)
+                self._c19_list().append(stage)
+                return r
+
+            def insert_stage(self, index, stage):
+                r = super().insert_stage(index, stage)
+                self._c19_list().insert(index, stage)
+                return r
+
+            def remove_stage(self, name):
+                r = super().remove_stage(name)
+                if r:
+                    m = self._c19_list()
+                    for j, st in enumerate(m):
+                        if st.name == name:
+                            m.pop(j)
+                            break
+                return r
+        Recording.__name__ = cls.__name__
+        Recording.__qualname__ = cls.__qualname__
+        sub = _RECORDERS[cls] = Recording
+    return sub
+
+
+def stage_objects(casc, acc):
+    """The CascadeStage objects of a built cascade in pipeline order, without naming any private attribute: (a) the mirror
+    kept by `recording` from the public building calls, (b) structurally - an instance attribute that is a sequence of
+    CascadeStage objects. A candidate is accepted only if it agrees with the public `get_statistics()` (count and names).
+    None when the objects cannot be established (the run is then not monitored; `mapk_runs` is a required counter)."""
+    from collections import deque
+    from operon_ai.topology.cascade import CascadeStage
+    try:
+        stats = casc.get_statistics()
+        want = list(stats["stage_names"])
+    except Exception:
+        want = None
+    cands = []
+    m = casc.__dict__.get("c19_mirror")
+    if m is not None:
+        cands.append(("mirror", list(m)))
+    for name, v in list(vars(casc).items()):
+        if name != "c19_mirror" and isinstance(v, (list, tuple, deque)) and len(v) and \
+                all(isinstance(x, CascadeStage) for x in v):
+            cands.append(("structural", list(v)))
+    for how, c in cands:
+        if want is None or [st.name for st in c] == want:
+            acc["stage_objects_from_" + how] = acc.get("stage_objects_from_" + how, 0) + 1
+            return c
+    acc["stage_objects_not_established"] = acc.get("stage_objects_not_established", 0) + 1
+    return None
+
+
+def wrap_stages(stage_list):
     """Replace every stage callable of a built cascade by a logging wrapper around the original."""
     meta = []
-    for i, st in enumerate(casc._stages):
+    for i, st in enumerate(stage_list):
         if st.checkpoint is not None:
             def cp(s, _i=i, _f=st.checkpoint):
                 try:
@@ -699,8 +771,8 @@ def case_mapk(ctx, n, tp):
         halt = rng.random() < 0.5
         variant = rng.choice(MAPK_VARIANTS)
         inp = mapk_input(rng)
-        casc = MAPKCascade("mapk", tiers[0], tiers[1], tiers[2], max_amplification=maxamp, halt_on_failure=halt,
-                           silent=True)
+        casc = recording(MAPKCascade)("mapk", tiers[0], tiers[1], tiers[2], max_amplification=maxamp,
+                                      halt_on_failure=halt, silent=True)
         if variant == "remove-MAPKK":
             casc.remove_stage("MAPKK")
         elif variant == "remove-MAPKKK":
@@ -713,8 +785,11 @@ def case_mapk(ctx, n, tp):
         elif variant == "insert-tier-changer":
             casc.insert_stage(2, CascadeStage(name="scaffold", processor=lambda x: {**x, "tier": 7}, amplification=2.0))
         elif variant == "optional-MAPKK":
-            casc._stages[1].required = False
-            casc._stages[1].processor = lambda x: x["missing-key"]
+            preset = stage_objects(casc, acc)
+            if preset is None or len(preset) < 2:
+                continue
+            preset[1].required = False
+            preset[1].processor = lambda x: x["missing-key"]
         elif variant == "append-failing-stage":
             casc.add_stage(CascadeStage(name="effector", processor=lambda x: 1 // 0, amplification=3.0,
                                         on_error=(None if rng.random() < 0.5 else (lambda e: {"recovered": True})),
@@ -728,9 +803,12 @@ def case_mapk(ctx, n, tp):
             casc.insert_stage(rng.randrange(1, 4), CascadeStage(name=rng.choice(["MAPKKK", "MAPKK", "MAPK"]), processor=proc,
                                                                 required=rng.random() < 0.5,
                                                                 amplification=rng.choice([1.0, 2.0])))
-        if len({st.name for st in casc._stages}) < len(casc._stages):
+        built = stage_objects(casc, acc)
+        if built is None:
+            continue
+        if len({st.name for st in built}) < len(built):
             acc["mapk_runs_with_duplicate_tier_name"] = acc.get("mapk_runs_with_duplicate_tier_name", 0) + 1
-        meta = wrap_stages(casc)
+        meta = wrap_stages(built)
         LOG = log = []
         CUR_INPUT = inp
 
@@ -1306,7 +1384,9 @@ def case_overlap(ctx, n, tp):
         notify = rng.random() < 0.4
         casc = Cascade("c19-shared", max_amplification=maxamp, halt_on_failure=halt, silent=True,
                        on_stage_complete=_ov_stage_complete if notify else None)
-        casc._lock = locks.DetectingLock(sched.SchedLock(casc._lock, "Cascade._lock"), "Cascade._lock")
+        # every lock-like attribute of the instance, whatever it is called (none at all is fine too)
+        nlocks = len(locks.wrap_all_locks(casc, lambda inner, nm: locks.DetectingLock(sched.SchedLock(inner, nm), nm)))
+        bump("overlap_instance_locks_wrapped", nlocks)
         meta = []
         # stage names are labels: in a third of the configurations several stages carry the same one
         pool = rng.randint(1, max(1, k - 1)) if rng.random() < 0.35 else 0
